@@ -10,7 +10,7 @@ import (
 )
 
 // Profile names a scheduling regime for the generated prefix.
-var Profiles = []string{"near-sync", "random", "timeout-heavy", "partition", "equivocate", "late-commit", "gate", "gate", "laggard", "two-faced", "hijack", "rotlag"}
+var Profiles = []string{"near-sync", "random", "timeout-heavy", "partition", "equivocate", "late-commit", "gate", "gate", "laggard", "two-faced", "hijack", "rotlag", "rules", "rules"}
 
 type RunOpts struct {
 	Profile    string
@@ -38,6 +38,8 @@ func profileWeights(p string) weights {
 		return weights{deliver: 30, alarm: 3, dup: 1, drop: 0, byz: 2, start: 8}
 	case "rotlag":
 		return weights{deliver: 30, alarm: 3, dup: 1, drop: 0, byz: 5, start: 12}
+	case "rules":
+		return weights{deliver: 30, alarm: 3, dup: 1, drop: 0, byz: 3, start: 10}
 	case "two-faced":
 		return weights{deliver: 40, alarm: 2, dup: 1, drop: 0, byz: 0, start: 10}
 	default:
@@ -80,6 +82,31 @@ func (w *World) held(profile string, p *Pending, step, healAt int, group map[int
 			return p.Msg.Vote.Round == holdRound
 		case gpbft.CONVERGE_PHASE:
 			return p.Msg.Vote.Round == holdRound+1
+		}
+		return false
+	case "rules":
+		// a generated, per-case persistent rule set: for every step and destination side,
+		// messages flow freely, are withheld when they come from the other side, or are withheld
+		// from everybody but the sender itself; the rules bind rounds up to a generated bound
+		if p.FromByz {
+			return false
+		}
+		from, ok := w.ByIdx[p.Msg.Sender]
+		if !ok || from == p.To {
+			return false
+		}
+		if p.Msg.Vote.Round > w.ruleRounds {
+			return false
+		}
+		ph := int(p.Msg.Vote.Phase)
+		if ph < 0 || ph >= len(w.rules) {
+			return false
+		}
+		switch w.rules[ph][group[p.To]%2] {
+		case 1:
+			return group[from] != group[p.To]
+		case 2:
+			return true
 		}
 		return false
 	case "rotlag":
@@ -174,7 +201,7 @@ func (w *World) RunPrefix(t *rapid.T, o RunOpts) {
 	}
 	for i := range w.Nodes {
 		if _, ok := group[i]; !ok {
-			if o.Profile == "hijack" || o.Profile == "rotlag" || (o.Profile == "laggard" && i > 0) {
+			if o.Profile == "hijack" || o.Profile == "rotlag" || o.Profile == "rules" || (o.Profile == "laggard" && i > 0) {
 				// alternate sides, so that neither side can reach a quorum on its own
 				group[i] = (i + hijackOff) % 2
 				continue
@@ -207,6 +234,16 @@ func (w *World) RunPrefix(t *rapid.T, o RunOpts) {
 	}
 	if o.Profile == "laggard" {
 		steps = o.MaxSteps
+	}
+	if o.Profile == "rules" {
+		for ph := range w.rules {
+			for g := 0; g < 2; g++ {
+				w.rules[ph][g] = rapid.SampledFrom([]int{0, 0, 0, 1, 1, 2}).Draw(t, "rule")
+			}
+		}
+		w.ruleRounds = uint64(rapid.SampledFrom([]int{0, 0, 1, 2, 100}).Draw(t, "rulerounds"))
+		steps = o.MaxSteps
+		healAt = o.MaxSteps * rapid.IntRange(2, 4).Draw(t, "rulehealquarters") / 4
 	}
 	lagOff := 0
 	w.curLag = -1
@@ -659,7 +696,10 @@ func (w *World) Close(t *rapid.T, maxSteps int, roundBound uint64) CloseResult {
 	delta := w.Cfg.Delta
 	assign := func(p *Pending) {
 		if p.DeliverAt.IsZero() {
-			lat := time.Duration(rapid.IntRange(0, 4).Draw(t, "lat")) * delta / 4
+			lat := delta / 2 // scripted scenarios (no generator): a fixed latency within the bound
+			if t != nil {
+				lat = time.Duration(rapid.IntRange(0, 4).Draw(t, "lat")) * delta / 4
+			}
 			base := p.SentAt
 			if base.Before(w.Now) {
 				base = w.Now
